@@ -340,8 +340,14 @@ def main(prop, tier="quick", seed=0, jobs=None):
             checker_cmd=f"./check {prop} --tier {tier}",
         ),
     )
-    os.makedirs(os.path.join(VERIF, "evidence"), exist_ok=True)
-    with open(os.path.join(VERIF, "evidence", f"{prop}.json"), "w") as f:
+    # evidence/<id>.json describes runs against /repo; a run against another tree (SYMX_REPO: seeded or
+    # reverted scratch copies) writes its evidence next to that tree's scratch data instead
+    ev_dir = os.path.join(VERIF, "evidence")
+    other = os.environ.get("SYMX_REPO")
+    if other and os.path.realpath(other) != os.path.realpath("/repo"):
+        ev_dir = os.path.join("/var/tmp", "symx-evidence-other-tree")
+    os.makedirs(ev_dir, exist_ok=True)
+    with open(os.path.join(ev_dir, f"{prop}.json"), "w") as f:
         json.dump(ev, f, indent=1, default=str)
 
     print(f"[{prop}] tier={tier} tasks={len(tasks)} paths={agg['paths']} aborted={agg['aborted']} queries={agg['queries']} solver={agg['solver_s']:.1f}s obligations={total_pr}/{total_ob} wall={wall:.1f}s")
